@@ -30,6 +30,7 @@ package announce
 
 //@ func (*Receiver).Next
 //@   property C16
+//@   pure
 //@   requires recvOK(r) && ctx != nil
 //@   shutdown done
 
